@@ -916,7 +916,7 @@ def main(tier, seed, t0):
         for s, w in ds:
             col.discrepancy(s, w, rec["case"])
 
-    ncpu = common.NCPU
+    ncpu = 16       # the shard layout (hence the cases) must not depend on how many cores happen to be there
     quick = tier == "quick"
     n_mut = 6300 if quick else 301000
     n_gen = 1400 if quick else 28000
